@@ -13,7 +13,7 @@ LEVEL = "exploration"
 RULE = ("1-4 concurrent operations from {read, read_descriptor, write(with response), write_descriptor, start_notify, pair, unpair, clear_cache, "
         "get_services, device_connect, device_disconnect} over addresses {A,B} x handles {1,2}; device replies = orderings of items from {matching "
         "response, same type for foreign address / foreign handle, GATT error matching / foreign address / foreign handle, connection change "
-        "for A / B (connected or not; A, B and the two handles range over default and boundary values: 0, 2^48-1, neighbours, 2^32-1, 65535/65536), service chunks, nothing}; all permutations for small sets, seeded random otherwise; caller cancellation "
+        "for A / B (connected or not; A, B and the two handles range over default and boundary values: 0, 2^48-1, neighbours, 2^32-1, 65535/65536), service chunks, nothing}; all permutations for small sets, seeded random otherwise; replies one per chunk or several back to back in one chunk; caller cancellation "
         "and connect timeouts included. Oracle: per-operation matching model over the recorded arrival history (first deciding arrival, exact "
         "completion instant, exact timeout instant, DISCONNECT on the wire before the connect TimeoutAPIError), then leftover probes: matching "
         "traffic after the end must reach no callback of a finished operation and the handler table must hold only the documented survivors. "
@@ -202,8 +202,18 @@ def run_case(case: dict[str, Any]) -> dict[str, Any]:
             recs.append(sim.call(f"{op['op']}#{i}", lambda i=i, op=op: start(i, op)))
         sim.run_for(0.001)
         n_requests = len(dconn.received)
-        for k, item in enumerate(case["replies"]):
-            dconn.send_msg(build_msg(pb, item, ops, k + 1), delay=0.01 * (k + 1))
+        # case["groups"]: sizes of consecutive runs of replies that the device writes back to back, so that they reach the client in ONE
+        # chunk (one data_received call: both are dispatched before any waiting task can run); default: every reply in its own chunk
+        groups = case.get("groups") or [1] * len(case["replies"])
+        k = 0
+        for g in groups:
+            dconn.outbox = []
+            for item in case["replies"][k:k + g]:
+                dconn.send_msg(build_msg(pb, item, ops, k + 1))
+                k += 1
+            out_, dconn.outbox = dconn.outbox, None
+            if out_:
+                dconn.deliver_items(out_, 0.01 * k)
         cancels: dict[int, int] = {}
         for i, at in case.get("cancel", {}).items():
             def do_cancel(i: int = int(i)) -> None:
@@ -406,6 +416,14 @@ def gen_case(rng: Any) -> dict[str, Any]:
     case: dict[str, Any] = {"ops": ops, "replies": replies, "answer_disconnect": rng.random() < 0.5, "values": list(vals)}
     if rng.random() < 0.2:
         case["cancel"] = {str(rng.randrange(nops)): rng.choice([0.0, 0.015, 0.035, 0.5])}
+    if len(replies) >= 2 and rng.random() < 0.4:
+        groups = []
+        left = len(replies)
+        while left:
+            g = min(left, rng.choice((1, 2, 2, 3, 6)))
+            groups.append(g)
+            left -= g
+        case["groups"] = groups
     return case
 
 
@@ -423,7 +441,9 @@ def one(ctx: Ctx, case: dict[str, Any], label: str) -> None:
     res.count("ble_arrivals_seen", len(o["arrivals"]))
     if ended:
         res.sig(tuple((op["op"], op["addr"] == A, op.get("handle")) for op in case["ops"]), tuple(tuple(x) for x in case["replies"]),
-                tuple(r.outcome for r in o["recs"]), tuple(case.get("cancel", {}).items()))
+                tuple(r.outcome for r in o["recs"]), tuple(case.get("cancel", {}).items()), tuple(case.get("groups") or ()))
+        if case.get("groups") and max(case["groups"]) > 1:
+            res.count("cases_with_several_replies_in_one_chunk")
     for key, what in judge(case, o):
         res.violation(key, what, {"case": case}, trace=o["trace"][-60:])
     if res.evaluations % 300 == 1:
@@ -461,6 +481,10 @@ def shard(ctx: Ctx) -> None:
                         continue
                     if ctx.mine(idx):
                         one(ctx, {"ops": [base], "replies": [list(p) for p in perm], "answer_disconnect": idx % 2 == 0, "values": list(vals)}, "single-op-permutations")
+                        if k >= 2 and (k == 2 or idx % 3 == 0):
+                            # the same replies written back to back: they arrive in one chunk
+                            one(ctx, {"ops": [base], "replies": [list(p) for p in perm], "answer_disconnect": idx % 2 == 0, "values": list(vals), "groups": [k]},
+                                "single-op-permutations-one-chunk")
     set_values(DEFAULT_VALUES)
     cleanup_inside_state_callback(ctx)
     # cancellation of every operation at several instants, followed by matching traffic (leftover probe)
@@ -470,6 +494,14 @@ def shard(ctx: Ctx) -> None:
             if ctx.mine(idx):
                 base = {"op": name, "addr": A, "handle": H1}
                 one(ctx, {"ops": [base], "replies": [["T_fa", 0]], "cancel": {"0": at}}, "cancel-then-matching-traffic")
+        # the deciding answer followed IN THE SAME CHUNK by more traffic the operation's filter accepts: a duplicate, a GATT error, a
+        # connection change for its address (peripheral answers and drops at once) -- the first one decides, the rest has no effect
+        for second in (["T", 0], ["err", 0], ["conn", A, 0], ["conn", A, 1], ["T_fa", 0]):
+            for first in (["T", 0], ["err", 0]):
+                idx += 1
+                if ctx.mine(idx):
+                    base = {"op": name, "addr": A, "handle": H1}
+                    one(ctx, {"ops": [base], "replies": [first, second, second], "groups": [3]}, "answer-and-more-in-one-chunk")
         # cancel in the very loop iteration in which the deciding answer arrives, ahead of it and behind it
         for after_io in (False, True):
             idx += 1
